@@ -3003,6 +3003,7 @@ class TypeBlocks(ContainerOperand):
                             return sel[i, target_slice.start] # type: ignore
 
                         target_slice = None
+                        bridge_slice = None
                         for target_slice, value in slices_from_targets(
                                 target_index=target_index,
                                 target_values=target_values,
@@ -3012,10 +3013,13 @@ class TypeBlocks(ContainerOperand):
                                 slice_condition=slice_condition
                                 ):
                             assigned[i, target_slice].fill(value)
+                            # slices are given in ascending order: the one next to the bridge source is the last when going forward, the first when going backward
+                            if directional_forward or bridge_slice is None:
+                                bridge_slice = target_slice
 
-                        # update counts from the last slice; this will have already been limited if necessary, but need to reflext contiguous values going into the next block; if slices does not go to edge; will identify as needing as reset
-                        if target_slice is not None:
-                            bridging_count[i] = len(range(*target_slice.indices(length))) # type: ignore
+                        # update counts from the slice next to the bridge source; this will have already been limited if necessary, but need to reflext contiguous values going into the next block; if slices does not go to edge; will identify as needing as reset
+                        if bridge_slice is not None:
+                            bridging_count[i] = len(range(*bridge_slice.indices(length))) # type: ignore
 
                     bridging_values = assigned[:, bridge_src_index]
                     bridging_isna = isna_array(bridging_values) # must reevaluate if assigned
